@@ -69,6 +69,9 @@ def _run(codes, args, storage):
             w.check_other_connection(where)
         elif op in ('savepoint', 'rollback'):
             w.check_other_connection(where)
+    # objects that were new in an aborted transaction can be added again, with their state
+    if not w.sps:
+        w.readd_disowned(' '.join(trace))
     # finally: commit stores exactly the final states; abort discards everything
     w.commit()
     w.check_view('final commit after ' + ' '.join(trace))
